@@ -128,6 +128,16 @@ CLAIMED["C12"] = dict(
          "expat): the connection stays registered and open and keeps being served.",
     note="Trusted: VLoop, fake streams; numbers/base64 from pools (C-level conversions); partly applicable messages may be applied or ignored.",
     ref="DESIGN.md section 6 C12", technique=XHV)
+CLAIMED["C10"] = dict(
+    text="SMT engine: num_to_str, str_to_num and checks.number are translated from the AST of the current tree on every run (concrete, format-only "
+         "sub-expressions evaluated by Python; the value a z3 Real in [-1e9,1e9], texts z3 strings/regular languages). Per format (14 printf + 6 "
+         "sexagesimal quick; full flag/width/precision grid thorough): Q1 rendering inside the validator's language and inside the INDI grammar "
+         "(regex inclusion), Q2 INDI denotation within the resolution (LRA), Q4 every INDI-grammar text accepted and mapped to its denotation on every "
+         "path of the parser (regex inclusion + LRA), Q3 by composition, Q5 validator inside the grammar. Every sat model is replayed on the real functions.",
+    note="Trusted: IEEE-754 standard model with 1e-6 slack; C99 printf contract for d/f (validated on 1600 concrete renderings each run); Latin-1 digits; "
+         "Python int()/float() literal grammars. Constructs outside the translator's subset give INCONCLUSIVE (fail closed).",
+    ref="DESIGN.md section 6 C10", technique="AST-to-SMT translation of the real functions, z3 (strings/regex + linear arithmetic), unsat = holds for all values in range, sat models replayed",
+    engine="smt")
 NA_DEFAULT = "check not built yet in this round (no verdict claimed); see DESIGN.md section 6 for the plan"
 
 checks, na = [], []
@@ -156,6 +166,8 @@ m = {
               "baseline_off_cmd": "cd /repo && /venv/bin/python -m pytest -ra -q -p no:cacheprovider --timeout=900 --continue-on-collection-errors",
               "source_commits": [], "add_only": True},
     "engines": [
+        {"name": "smt", "path": "/verif/smt", "serves_properties": ["C10", "C13"],
+         "kind_free_text": "AST -> SMT-LIB translation (z3 Python API) of the number kernels; regex inclusion and LRA queries; replay on the real functions"},
         {"name": "xh", "path": "/verif/vf", "serves_properties": sorted(CLAIMED),
          "kind_free_text": "CrossHair 0.0.110 symbolic execution of /repo's modules with z3; one OS process per condition; reach twins; concrete replay"},
     ],
